@@ -199,6 +199,23 @@ func c17SplitNested(m string) (outer, inner, at string) {
 	return m[:i], m[i+1 : j], m[j+1:]
 }
 
+// c17Shadows: the mount entry has an inner mount at a path the outer collection has itself.
+func c17Shadows(m string) bool {
+	outer, inner, at := c17SplitNested(m)
+	if inner == "" {
+		return false
+	}
+	n := c17CollNode(outer)
+	for _, comp := range strings.Split(at, "/") {
+		ch, ok := n.children[comp]
+		if !ok {
+			return false
+		}
+		n = ch
+	}
+	return true
+}
+
 func (mk c17MountKind) mount() arvados.Mount {
 	return arvados.Mount{Kind: "collection", PortableDataHash: mk.coll.pdh, Path: mk.path, ExcludeFromOutput: mk.exclude}
 }
@@ -760,6 +777,12 @@ func (x *c17ctx) runCase(cs *c17Case) {
 	if cs.Via {
 		via = ":via"
 	}
+	for _, e := range cs.Entries {
+		if e.Kind == "mount" && c17Shadows(e.Mount) {
+			via += ":shadow"
+			break
+		}
+	}
 	violation := func(class, detail string) {
 		r.Violation(class+via, fmt.Sprintf("%s\ncase: %s\nexpect: mustFail=[%s] either=[%s] maxHops=%d\nerr: %v\nmanifest: %q",
 			detail, cs.json(), c17Keys(ref.mustFail), c17Keys(ref.either), ref.maxHops, got.err, got.manifest), cs)
@@ -1110,6 +1133,8 @@ func (g *c17Gen) specialsFor(i int) []c17Kind {
 	if g.thorough {
 		nested = append(nested, "A>Ax@s d/new", "A>Bf@s d/t/new", "A>Bp@new/er", "Ax>Bp@s d/new")
 	}
+	// ... and at a directory the outer collection HAS (the inner mount hides the outer content there)
+	nested = append(nested, "A>Bp@s d/t")
 	for _, m := range nested {
 		sp = append(sp, c17Kind{code: c17kMount, s: m})
 	}
@@ -1189,11 +1214,19 @@ func (g *c17Gen) enumerate() {
 }
 
 func (g *c17Gen) emit(allMounts bool) {
-	via := false
+	via, shadow := false, false
 	for _, i := range g.leaves {
 		if c := g.kinds[i].code; c == c17kViaRel || c == c17kViaAbs {
 			via = true
 		}
+		if g.kinds[i].code == c17kMount && c17Shadows(g.kinds[i].s) {
+			shadow = true
+		}
+	}
+	if via && shadow {
+		// each of the two has a signature class of its own (":via", ":shadow"); trees that combine
+		// them are not generated, so that every violation can be attributed to one of them
+		return
 	}
 	g.count++
 	if g.countOnly {
